@@ -119,6 +119,8 @@ def family(tier):
     add("release_state", "abc", "(deflayer l0 (multi lsft (layer-while-held l1)) (multi x (release-key lsft)) z)\n"
                                 "(deflayer l1 _ (multi y (release-layer l1)) lctl)", qmax=3, quick=False)
     add("repeat", "ab", "(deflayer l0 S-x rpt)", qmax=3, quick=False)
+    # mouse wheel in L1 (Kanata.tla HandleScrolling): vertical and horizontal slot, the second key of a slot takes it over
+    add("mwheel", "abc", "(deflayer l0 (mwheel-up 2 120) (mwheel-down 3 50) (multi lsft (mwheel-left 2 10)))", qmax=2)
     # caps-word in L1 (Kanata.tla CwStep): a key to capitalise, a non-terminal key, a terminating key; timeout 3
     add("capsword", "abcd", "(deflayer l0 (caps-word-custom 3 (b) (c)) b c d)", qmax=2)
     add("capsword_toggle", "abc", "(deflayer l0 (caps-word-custom-toggle 4 (b) ()) b (multi lctl c))", qmax=2, quick=False)
